@@ -51,7 +51,7 @@ def Codec.events : Codec → Option (Bytes → List (Option Nat))
   | .table tbl => some (tableEvents tbl)
   | .utf8 => some (fun b => utf8Events (2 * b.length + 2) {} b)
   | .utf16 le => some (fun b => let r := utf16Units le b; utf16EventsUnits r.2 r.1)
-  | .external _ => none
+  | .external id => Cjk.eventsOf id
 
 /-- result of the helper: `Err` (the message is not modelled) or the text -/
 def applyTrap (trap : Trap) (evs : List (Option Nat)) : Option Text :=
